@@ -524,6 +524,13 @@ def materialise(ctx, impl, cases, work, offset=0):
 C05_CHECKS = ('exit', 'sane', 'status', 'sections', 'body')
 C18_CHECKS = ('total', 'stepdur', 'sizes', 'shell')
 SIG_D14 = 'log-excerpt-cut-at-nul'
+SIG_D18 = 'failed-step-but-no-report'
+
+
+def d18_shape(case):
+    """a listed cvs step of a robsd-ports invocation whose cvs logs (one or both) were never written"""
+    return (case['mode'] == 'robsd-ports' and any(r['name'] == 'cvs' and r['skip'] != 1 for r in case['rows'])
+            and any(case['tmp'].get(n) is None for n in ('cvs-ports-up.log', 'cvs-ports-ci.log')))
 
 
 def oracle_line(toks, rc, out, rep, sizes_parsable, shell):
@@ -577,6 +584,11 @@ def classify(pid, check, case, rep, rc):
             return 'ok-reported-as-failure', 'status reports a failure although no non-skipped row failed'
         return 'status-mismatch', 'subject/status do not name the failing step or the number of failures'
     if name == 'exit':
+        if rc == 1 and d18_shape(case):
+            return SIG_D18, ('robsd-report exited 1 without printing a report because a cvs log below tmp was never written '
+                             '(robsd-ports without cvs-root/cvs-user, or a first checkout)%s'
+                             % ('; the failed step %r goes unreported' % [r['name'] for r in rows if r['skip'] != 1 and r['exit'] != 0][0]
+                                if [r for r in rows if r['skip'] != 1 and r['exit'] != 0] else ''))
         if rc not in (0, 1):
             return 'report-abnormal-exit', 'robsd-report terminated with status %d' % rc
         return 'report-exit-mismatch', 'robsd-report exit %d where the specification says %d' % (rc, 1 - rc)
